@@ -1,7 +1,8 @@
 ------------------------- MODULE ProxyMsgLimit_Gen -------------------------
 (* Vector generator for C07: one state per scenario of ProxyMsgLimit (direction, the two limit      *)
 (* settings, how the body is announced, its size relative to the effective limit, route cache on/off *)
-(* for requests, response compression on/off for responses).  `out` carries the scenario, the         *)
+(* for requests, response compression on/off for responses, media type the body is labelled with).   *)
+(* `out` carries the scenario, the                                                                    *)
 (* effective limit interval the CONTRACT derives from the settings (the harness scales it to bytes;  *)
 (* it never computes a limit itself), the number of identical requests of the sequence and the       *)
 (* observation the implementation-shaped layer predicts for each of them.  Exported with `tlc -dump`. *)
@@ -17,7 +18,7 @@ Rel(i, o, n) == IF n = 0 THEN "zero"
                 ELSE IF n = EffHi(i, o, D) + 1 THEN "hi+1" ELSE IF n = EffLo(i, o, D) \div 2 THEN "half" ELSE "x4"
 
 Vec(dir, i, o, w, cache) ==
-    [dir |-> dir, inner |-> i, outer |-> o, enc |-> w.enc, short |-> Short(w), rel |-> Rel(i, o, Announced(w)),
+    [dir |-> dir, inner |-> i, outer |-> o, enc |-> w.enc, ctype |-> w.ctype, short |-> Short(w), rel |-> Rel(i, o, Announced(w)),
      comp |-> w.comp, cache |-> cache, reqs |-> IF cache THEN LimK ELSE 1,
      stream |-> Streams(i, o), effLo |-> EffLo(i, o, D), effHi |-> EffHi(i, o, D),
      level |-> IF i # 0 THEN "inner" ELSE IF o # 0 THEN "outer" ELSE "default",
